@@ -11,6 +11,7 @@ inductive Fn where
   | rat (p q : List Rat)
   | powc (p : Int) (c : Rat)        -- x^p - c
   | sat (s c : Rat)                 -- (x-s)/(1+|x-s|) - c
+  | plat (k : Nat) (d : Rat)        -- 1/(1+x^2)^k - d
   | nanle (t : Rat) (g : Fn)        -- NaN for x <= t
   | nange (t : Rat) (g : Fn)        -- NaN for x >= t
 
@@ -19,6 +20,7 @@ def Fn.eval : Fn → Rat → Option Rat
   | .rat p q, x => let d := polyEval q x; if d = 0 then none else some (polyEval p x / d)
   | .powc p c, x => if x = 0 ∧ p < 0 then none else some (x ^ p - c)
   | .sat s c, x => some ((x - s) / (1 + rabs (x - s)) - c)
+  | .plat k d, x => some ((1 / (1 + x * x)) ^ k - d)
   | .nanle t g, x => if x ≤ t then none else g.eval x
   | .nange t g, x => if x ≥ t then none else g.eval x
 
@@ -30,6 +32,7 @@ def Fn.mag : Fn → Rat → Rat
     if d = 0 then 0 else polyAbs p x / d * (1 + polyAbs q x / d)
   | .powc p c, x => rabs (x ^ p) * (1 + rabs (p : Rat)) + rabs c
   | .sat s c, x => (rabs x + rabs s) / (1 + rabs (x - s)) + rabs c
+  | .plat k d, x => (1 / (1 + x * x)) ^ k * (2 + (k : Rat)) + rabs d
   | .nanle _ g, x => g.mag x
   | .nange _ g, x => g.mag x
 
@@ -38,6 +41,7 @@ partial def pFn : P Fn := do
   if k = "poly" then do let cs ← pRats; pure (.poly cs)
   else if k = "rat" then do let p ← pRats; let q ← pRats; pure (.rat p q)
   else if k = "powc" then do let p ← pInt; let c ← pRat; pure (.powc p c)
+  else if k = "plat" then do let p ← pNat; let c ← pRat; pure (.plat p c)
   else if k = "sat" then do let s ← pRat; let c ← pRat; pure (.sat s c)
   else if k = "nanle" then do let t ← pRat; let g ← pFn; pure (.nanle t g)
   else if k = "nange" then do let t ← pRat; let g ← pFn; pure (.nange t g)
@@ -86,6 +90,7 @@ def handle : Handler := fun op args =>
       | .errNoSignChange => "err"
       | .errStuck => "err"
       | .nanInside => "undef"
+  | "c02.sign" => withArgs (do let x ← pRat; let y ← pRat; pure (x, y)) args fun (x, y) => "ok " ++ showRat (sign2 x y)
   -- transcendental functions: decided by the oracle on the implementation only
   | "c02.fam" => some "undef"
   | _ => none
